@@ -29,6 +29,7 @@ inductive LexErr where
   | lexical (loc : Nat)
   | invalidConstant (s e : Nat)
   | unterminatedComment (loc : Nat)
+  | outOfFuel
   deriving Repr, DecidableEq
 
 def isHex (c : Char) : Bool := ('0' ≤ c && c ≤ '9') || ('a' ≤ c && c ≤ 'f') || ('A' ≤ c && c ≤ 'F')
@@ -120,71 +121,95 @@ inductive Item where
   | err (e : LexErr)
   deriving Repr, DecidableEq
 
-/-- the iterator, run to the end of input or to the first lexical error -/
+/-- one turn of the iterator's loop: the items produced and where it goes on, or the end (end of input, or an error) -/
+inductive Step where
+  | stop (items : List Item)
+  | more (items : List Item) (cs : List Char) (off : Nat)
+
+/-- a one-character token -/
+def simpleStep (rest : List Char) (i next : Nat) (t : Tok) : Step := .more [.tok i t (i + 1)] rest next
+
+/-- a token that may be extended by a second character (`&` / `&&`, `<` / `<<` / `<=`, ...) -/
+def chooseStep (rest : List Char) (i next : Nat) (dflt : Tok) (opts : List (Char × Tok)) : Step :=
+  match rest with
+  | d :: rest2 =>
+    match opts.find? (fun o => o.1 == d) with
+    | some o => .more [.tok i o.2 (i + 2)] rest2 (next + size d)
+    | none => .more [.tok i dflt (i + 1)] rest next
+  | [] => .more [.tok i dflt (i + 1)] rest next
+
+/-- `#` and `//` comments: up to the end of the line -/
+def lineCommentStep (rest : List Char) (next : Nat) : Step :=
+  let (skipped, after) := spanWhile (fun d => d != '\n' && d != '\r') rest
+  .more [] after (next + sizeOf' skipped)
+
+/-- `/`: a line comment, a block comment or the division sign -/
+def slashStep (rest : List Char) (i next : Nat) : Step :=
+  match rest with
+  | '/' :: _ => lineCommentStep rest next
+  | '*' :: _ =>
+    match skipBlock (rest.length + 1) rest next with
+    | some (after, off') => .more [] after off'
+    | none => .stop [.err (.unterminatedComment i)]
+  | _ => simpleStep rest i next .Divide
+
+/-- operators, punctuation, comments -/
+def punctStep (c : Char) (rest : List Char) (i next : Nat) : Step :=
+  if c == '#' then lineCommentStep rest next
+  else if c == '/' then slashStep rest i next
+  else if c == '&' then chooseStep rest i next .And [('&', .AndAnd)]
+  else if c == '|' then chooseStep rest i next .Or [('|', .OrOr)]
+  else if c == '=' then chooseStep rest i next .Assign [('=', .Equal)]
+  else if c == '>' then chooseStep rest i next .Greater [('>', .RightShift), ('=', .GreaterEqual)]
+  else if c == '<' then chooseStep rest i next .Less [('<', .LeftShift), ('=', .LessEqual)]
+  else if c == '!' then chooseStep rest i next .Not [('=', .NotEqual)]
+  else if c == ':' then simpleStep rest i next .Colon
+  else if c == '~' then simpleStep rest i next .Complement
+  else if c == ',' then simpleStep rest i next .Comma
+  else if c == ';' then simpleStep rest i next .Semicolon
+  else if c == '.' then
+    match rest with
+    | '.' :: rest2 => .more [.tok i .DotDot (i + 2)] rest2 (next + 1)
+    | _ => .stop [.err (.lexical i)]
+  else if c == '+' then simpleStep rest i next .Plus
+  else if c == '-' then simpleStep rest i next .Minus
+  else if c == '^' then simpleStep rest i next .Xor
+  else if c == '*' then simpleStep rest i next .Times
+  else if c == '(' then simpleStep rest i next .OpenParen
+  else if c == ')' then simpleStep rest i next .CloseParen
+  else if c == '[' then simpleStep rest i next .OpenBracket
+  else if c == ']' then simpleStep rest i next .CloseBracket
+  else if c == '{' then simpleStep rest i next .OpenBrace
+  else if c == '}' then simpleStep rest i next .CloseBrace
+  else .stop [.err (.lexical i)]
+
+def identStep (cls : CharCls) (c : Char) (rest : List Char) (i next : Nat) : Step :=
+  let (more, after) := spanWhile (fun d => cls.isAlphanumeric d || d == '_') rest
+  let e := next + sizeOf' more
+  .more [.tok i (keyword (String.ofList (c :: more))) e] after e
+
+def constantStep (c : Char) (rest : List Char) (i total : Nat) : Step :=
+  match handleConstant i c rest total with
+  | .ok ((s, t, e), after, off') => .more [.tok s t e] after off'
+  | .error err => .stop [.err err]
+
+def lexStep (cls : CharCls) (total : Nat) (cs : List Char) (off : Nat) : Step :=
+  match cs with
+  | [] => .stop []
+  | c :: rest =>
+    let next := off + size c
+    if cls.isWhitespace c then .more [] rest next
+    else if cls.isAlphabetic c || c == '_' then identStep cls c rest off next
+    else if isDec c then constantStep c rest off total
+    else punctStep c rest off next
+
+/-- the iterator, run to the end of input or to the first lexical error; running out of `fuel` is marked -/
 def lexAll (cls : CharCls) (total : Nat) : Nat → List Char → Nat → List Item
-  | 0, _, _ => []
+  | 0, _, _ => [.err .outOfFuel]
   | fuel+1, cs, off =>
-    match cs with
-    | [] => []
-    | c :: rest =>
-      let i := off
-      let next := off + size c
-      if cls.isWhitespace c then lexAll cls total fuel rest next
-      else if cls.isAlphabetic c || c == '_' then
-        let (more, after) := spanWhile (fun d => cls.isAlphanumeric d || d == '_') rest
-        let e := next + sizeOf' more
-        .tok i (keyword (String.ofList (c :: more))) e :: lexAll cls total fuel after e
-      else if isDec c then
-        match handleConstant i c rest total with
-        | .ok ((s, t, e), after, off') => .tok s t e :: lexAll cls total fuel after off'
-        | .error err => [.err err]
-      else
-        let simple (t : Tok) : List Item := .tok i t (i + 1) :: lexAll cls total fuel rest next
-        let choose (dflt : Tok) (opts : List (Char × Tok)) : List Item :=
-          match rest with
-          | d :: rest2 =>
-            match opts.find? (fun o => o.1 == d) with
-            | some o => .tok i o.2 (i + 2) :: lexAll cls total fuel rest2 (next + size d)
-            | none => .tok i dflt (i + 1) :: lexAll cls total fuel rest next
-          | [] => .tok i dflt (i + 1) :: lexAll cls total fuel rest next
-        if c == '#' then
-          let (skipped, after) := spanWhile (fun d => d != '\n' && d != '\r') rest
-          lexAll cls total fuel after (next + sizeOf' skipped)
-        else if c == '/' then
-          match rest with
-          | '/' :: _ =>
-            let (skipped, after) := spanWhile (fun d => d != '\n' && d != '\r') rest
-            lexAll cls total fuel after (next + sizeOf' skipped)
-          | '*' :: _ =>
-            match skipBlock (rest.length + 1) rest next with
-            | some (after, off') => lexAll cls total fuel after off'
-            | none => [.err (.unterminatedComment i)]
-          | _ => simple .Divide
-        else if c == '&' then choose .And [('&', .AndAnd)]
-        else if c == '|' then choose .Or [('|', .OrOr)]
-        else if c == '=' then choose .Assign [('=', .Equal)]
-        else if c == '>' then choose .Greater [('>', .RightShift), ('=', .GreaterEqual)]
-        else if c == '<' then choose .Less [('<', .LeftShift), ('=', .LessEqual)]
-        else if c == '!' then choose .Not [('=', .NotEqual)]
-        else if c == ':' then simple .Colon
-        else if c == '~' then simple .Complement
-        else if c == ',' then simple .Comma
-        else if c == ';' then simple .Semicolon
-        else if c == '.' then
-          match rest with
-          | '.' :: rest2 => .tok i .DotDot (i + 2) :: lexAll cls total fuel rest2 (next + 1)
-          | _ => [.err (.lexical i)]
-        else if c == '+' then simple .Plus
-        else if c == '-' then simple .Minus
-        else if c == '^' then simple .Xor
-        else if c == '*' then simple .Times
-        else if c == '(' then simple .OpenParen
-        else if c == ')' then simple .CloseParen
-        else if c == '[' then simple .OpenBracket
-        else if c == ']' then simple .CloseBracket
-        else if c == '{' then simple .OpenBrace
-        else if c == '}' then simple .CloseBrace
-        else [.err (.lexical i)]
+    match lexStep cls total cs off with
+    | .stop items => items
+    | .more items cs' off' => items ++ lexAll cls total fuel cs' off'
 
 def lex (cls : CharCls) (input : List Char) : List Item :=
   lexAll cls (sizeOf' input) (input.length + 1) input 0
